@@ -2,6 +2,7 @@
 //!   (parse #text) (parse_owned #text) (parse_runtime #text) (parse_runtime_owned #text)
 //!        -> (ok <resource> (<error> ...))      error = (Kind payload.. pos_start pos_end slice|none)
 //!   (parse_all #text) -> (ok <parse &str> <parse String> <parse_runtime &str> <parse_runtime String>)
+//!   (damage #pre #entry #damaged #post) -> (ok R(pre+entry+post) R'(..) R(pre+damaged+post) R'(..) R(pre) R'(pre) R(post) R'(post))  R = parse, R' = parse_runtime
 //!   (serialize true|false <resource>)   -> (ok #text)
 //!   (roundtrip true|false #text)        -> (ok <tree1> #ser1 <tree2> #ser2)   parse, serialize, parse, serialize
 //!   (unescape #text)                    -> (ok borrowed|owned #string #writer-output)
@@ -57,6 +58,18 @@ fn result<S: AsRef<str>>(
     }
 }
 
+/// FluentResource::try_new keeps the recovered tree next to the errors
+fn try_new(t: &str) -> Sexp {
+    use fluent_bundle::FluentResource;
+    let (tag, res, nerr) = match FluentResource::try_new(t.to_string()) {
+        Ok(r) => ("ok", r, 0),
+        Err((r, e)) => ("err", r, e.len()),
+    };
+    let n = res.entries().count();
+    let same = (0..n).all(|i| res.get_entry(i).is_some()) && res.get_entry(n).is_none() && res.source() == t;
+    list(vec![sym("try_new"), sym(tag), int(n as i64), int(nerr as i64), sbool(same)])
+}
+
 fn run(case: &Sexp) -> Sexp {
     let c = case.as_list();
     match c[0].as_str() {
@@ -68,7 +81,23 @@ fn run(case: &Sexp) -> Sexp {
                 result(parser::parse(t.to_string())),
                 result(parser::parse_runtime(t)),
                 result(parser::parse_runtime(t.to_string())),
+                try_new(t),
             ])
+        }
+        "damage" => {
+            // (damage #pre #entry #damaged #post)
+            let pre = c[1].as_str();
+            let e = c[2].as_str();
+            let d = c[3].as_str();
+            let post = c[4].as_str();
+            let good = format!("{}{}{}", pre, e, post);
+            let bad = format!("{}{}{}", pre, d, post);
+            let mut v = vec![sym("ok")];
+            for t in [good.as_str(), bad.as_str(), pre, post] {
+                v.push(result(parser::parse(t)));
+                v.push(result(parser::parse_runtime(t)));
+            }
+            list(v)
         }
         "parse" => result(parser::parse(c[1].as_str())),
         "parse_owned" => result(parser::parse(c[1].as_str().to_string())),
